@@ -14,6 +14,7 @@
 //                                resets next_in/avail_in/next_out/avail_out (the buffer regions are replaced)
 //   call <action> <in> <out> <resv> <tot> <c> <p> <r>
 //        in/out: k | s:<off>:<len> | n:<len> | d:+<x> | d:-<x> | z:<len> (in only: seek to strm->seek_pos)
+//                | b:<off>:<len> (in only: inside a 4 GiB + 1 MiB read-only mapping; offsets reported as 2^40 + off)
 //        resv:   - | <idx 0..8>:<value>      (all reserved members default except that one)
 //        tot:    - | <total_in>:<total_out>  (application overwrites the totals)
 //        c p r:  script of the stub for this call (ignored by real coders)
@@ -21,6 +22,7 @@
 //   end | progress | memusage | memlimit_get | memlimit_set <n>
 #include "c11_stub.h"
 #include "hproto.h"
+#include <sys/mman.h>
 
 #define GUARD 32
 
@@ -99,6 +101,28 @@ stub_get_progress(void *coder, uint64_t *progress_in, uint64_t *progress_out)
 // Reads a bool as a byte, so that an uninitialised/invalid value is REPORTED (and flagged by the checker) instead of
 // tripping UBSan inside the harness.
 static unsigned bool_byte(const bool *p) { unsigned char b; memcpy(&b, p, 1); return b; }
+
+// ---- a 4 GiB + 1 MiB read-only input mapping for size_t-wide avail_in values (spec b:<off>:<len>) ----
+// Never written, never backed by memory (reads see the shared zero page). Offsets into it are reported as
+// C11_BIGBASE + off so that they cannot be confused with offsets into the ordinary input region.
+#define C11_BIGSIZE ((((size_t)1) << 32) + (((size_t)1) << 20))
+#define C11_BIGBASE (((uint64_t)1) << 40)
+static uint8_t *bigmap = NULL;
+
+static uint8_t *big_get(void)
+{
+	if (bigmap == NULL) {
+		void *m = mmap(NULL, C11_BIGSIZE, PROT_READ, MAP_PRIVATE | MAP_ANONYMOUS | MAP_NORESERVE, -1, 0);
+		if (m == MAP_FAILED) { perror("mmap"); exit(3); }
+		bigmap = m;
+	}
+	return bigmap;
+}
+
+static bool in_big(const uint8_t *p)
+{
+	return bigmap != NULL && p >= bigmap && p <= bigmap + C11_BIGSIZE;
+}
 
 // ---- regions ----
 static void region_free(region *r) { free(r->alloc); free(r->shadow); memset(r, 0, sizeof(*r)); }
@@ -361,9 +385,17 @@ static bool apply_spec(const char *spec, bool is_in)
 		np = r->data + off; avail = len;
 	} else if (spec[0] == 'n' && spec[1] == ':') {
 		np = NULL; avail = strtoull(spec + 2, NULL, 10);
+	} else if (is_in && spec[0] == 'b' && spec[1] == ':') {
+		char *e; const size_t off = strtoull(spec + 2, &e, 10);
+		if (*e != ':') return false;
+		const size_t len = strtoull(e + 1, NULL, 10);
+		if (off > C11_BIGSIZE || len > C11_BIGSIZE - off) return false;
+		np = big_get() + off; avail = len;
 	} else if (spec[0] == 'd' && spec[1] == ':' && spec[2] == '+') {
 		avail += strtoull(spec + 3, NULL, 10);
-		if (cur != NULL && (size_t)(cur - r->data) + avail > r->size) return false;
+		if (cur != NULL && in_big(cur)) {
+			if ((size_t)(cur - bigmap) + avail > C11_BIGSIZE) return false;
+		} else if (cur != NULL && (size_t)(cur - r->data) + avail > r->size) return false;
 	} else if (spec[0] == 'd' && spec[1] == ':' && spec[2] == '-') {
 		const size_t x = strtoull(spec + 3, NULL, 10);
 		avail = avail >= x ? avail - x : 0;
@@ -407,12 +439,14 @@ static bool apply_reserved(const char *spec)
 static void put_off(const char *name, const uint8_t *p, const region *r)
 {
 	if (p == NULL) printf(" %s=N", name);
+	else if (in_big(p)) printf(" %s=%" PRIu64, name, C11_BIGBASE + (uint64_t)(p - bigmap));
 	else printf(" %s=%td", name, p - r->data);
 }
 
 static void put_off_bare(const uint8_t *p, const region *r)
 {
 	if (p == NULL) printf("N");
+	else if (in_big(p)) printf("%" PRIu64, C11_BIGBASE + (uint64_t)(p - bigmap));
 	else printf("%td", p - r->data);
 }
 
@@ -442,7 +476,40 @@ static void do_call(hp_line *l)
 	memcpy(rin.shadow, rin.alloc, rin.size + 2 * GUARD);
 	memcpy(rout.shadow, rout.alloc, rout.size + 2 * GUARD);
 
+	// Real coders get every slice as an EXACT-SIZE heap block (ASan sees any access past the slice the application
+	// supplied, also when more data follows in the region); positions are translated back to region offsets afterwards.
+	uint8_t *xin = NULL, *xout = NULL;
+	if (kind == K_REAL) {
+		if (pre.next_in != NULL) {
+			xin = malloc(pre.avail_in ? pre.avail_in : 1);
+			if (xin == NULL) abort();
+			memcpy(xin, pre.next_in, pre.avail_in);
+			strm.next_in = xin;
+		}
+		if (pre.next_out != NULL) {
+			xout = malloc(pre.avail_out ? pre.avail_out : 1);
+			if (xout == NULL) abort();
+			memset(xout, 0xEE, pre.avail_out);
+			strm.next_out = xout;
+		}
+	}
+
 	const lzma_ret ret = lzma_code(&strm, (lzma_action)action);
+
+	if (xin != NULL) {
+		const uintptr_t adv = (uintptr_t)strm.next_in - (uintptr_t)xin;
+		strm.next_in = (const uint8_t *)((uintptr_t)pre.next_in + adv);
+		if (rec.in == xin) rec.in = pre.next_in;
+		free(xin);
+	}
+	if (xout != NULL) {
+		const uintptr_t adv = (uintptr_t)strm.next_out - (uintptr_t)xout;
+		if (adv <= pre.avail_out)
+			memcpy(pre.next_out, xout, adv);
+		strm.next_out = (uint8_t *)((uintptr_t)pre.next_out + adv);
+		if (rec.out == xout) rec.out = pre.next_out;
+		free(xout);
+	}
 
 	bool called = false, law_ok = true;
 	if (kind == K_STUB && strm.internal != NULL && stub != NULL && stub->calls != calls0) {
